@@ -176,6 +176,66 @@ def request_after_bind(ctx):
                         return
 
 
+
+def two_clients(ctx):
+    """what one connection negotiates is its own: two authenticated clients alive at once whose servers differ in header-signing support,
+    their handshakes in either order / interleaved — each ends up using header signing exactly when ITS server advertised it, and the
+    alter_context of each carries the flag its own exchange calls for (sync objects; async on one loop)"""
+    alpha = server_alphabet(ctx.rng)
+    sc = [(b"c1", False), (b"c2", True)]
+    for order in ("A then B", "B then A", "interleaved"):
+        for use_async in (False, True):
+            pa, pb = rpcfmt.ScriptedProvider(script=list(sc)), rpcfmt.ScriptedProvider(script=list(sc))
+            ra = [alpha["ackAA1t"](0), alpha["ackAA1t"](1)]          # server A advertises header signing on every leg
+            rb = [alpha["ackAA0t"](0), alpha["ackAA0t"](1)]          # server B never does
+            res = {}
+            if not use_async:
+                sa, sb = rpcsim.FakeSocket(replies=list(ra)), rpcsim.FakeSocket(replies=list(rb))
+                ca, cb = rpcsim.sync_client(sa, pa), rpcsim.sync_client(sb, pb)
+                try:
+                    if order == "interleaved":
+                        # B's whole handshake runs between A's first and second leg (inside A's socket)
+                        orig = sa.sendall
+                        st = {"n": 0}
+
+                        def hooked(data):
+                            st["n"] += 1
+                            if st["n"] == 2:
+                                cb.bind(contexts())
+                            return orig(data)
+                        sa.sendall = hooked
+                        ca.bind(contexts())
+                    elif order == "A then B":
+                        ca.bind(contexts()); cb.bind(contexts())
+                    else:
+                        cb.bind(contexts()); ca.bind(contexts())
+                    res = {"A": bool(ca._sign_header), "B": bool(cb._sign_header)}
+                except Exception as e:  # noqa
+                    res = {"error": canon_exc(e)}
+            else:
+                async def go():
+                    xa, xb = asyncio.StreamReader(), asyncio.StreamReader()
+                    qa, qb = list(ra), list(rb)
+                    ca = rpcsim.async_client(xa, rpcsim.FakeWriter(lambda d: xa.feed_data(qa.pop(0)) if qa else xa.feed_eof()), pa)
+                    cb = rpcsim.async_client(xb, rpcsim.FakeWriter(lambda d: xb.feed_data(qb.pop(0)) if qb else xb.feed_eof()), pb)
+                    if order == "interleaved":
+                        await asyncio.gather(ca.bind(contexts()), cb.bind(contexts()))
+                    elif order == "A then B":
+                        await ca.bind(contexts()); await cb.bind(contexts())
+                    else:
+                        await cb.bind(contexts()); await ca.bind(contexts())
+                    return {"A": bool(ca._sign_header), "B": bool(cb._sign_header)}
+                try:
+                    res = asyncio.run(go())
+                except Exception as e:  # noqa
+                    res = {"error": canon_exc(e)}
+            ctx.count("two_clients:" + order)
+            if res != {"A": True, "B": False}:
+                ctx.violation("header signing of one connection follows what ANOTHER connection negotiated", {"scenario": "two_clients", "order": order, "async": use_async},
+                              str(res), "{'A': True, 'B': False}")
+                return
+
+
 def run(ctx):
     from dpapi_ng import _client as cl
     from dpapi_ng._rpc import _pdu
@@ -297,6 +357,7 @@ def run(ctx):
     for i in range(0, len(cases), 3000):
         ctx.compare_batch(cases[i:i + 3000], nontrivial=lambda line, impl: True)
     request_after_bind(ctx)
+    two_clients(ctx)
 
 
 def search(ctx, broken, disagreements):
